@@ -103,10 +103,25 @@ def _tmpdir() -> str:
     return _TMP
 
 
+_EXEC_JOBS: list = []  # futures of jobs the implementation handed to the loop's executor (the loop is the harness's own)
+
+
 def _loop():
     global _LOOP
     if _LOOP is None:
         _LOOP = asyncio.new_event_loop()
+        # The application supplies this loop, so it may observe what is submitted through its public
+        # run_in_executor: that is how background saves are awaited, independently of how (and under which
+        # private name) the implementation keeps track of them.
+        orig = _LOOP.run_in_executor
+
+        def run_in_executor(executor, func, *args):
+            fut = orig(executor, func, *args)
+            _EXEC_JOBS.append(fut)
+            del _EXEC_JOBS[:-200]
+            return fut
+
+        _LOOP.run_in_executor = run_in_executor
     return _LOOP
 
 
@@ -139,11 +154,9 @@ class SharedZeroconf:
 
 async def _settle():
     """Wait until every background task the implementation created (state saves in the executor) has finished."""
-    import pyhap.util as _u
-
     for _ in range(20):
         await asyncio.sleep(0)
-        pending = [t for t in list(getattr(_u, "_BACKGROUND_TASKS", ())) if not t.done()]
+        pending = [t for t in list(_EXEC_JOBS) if not t.done()]
         if not pending:
             # a save handed to the executor by other means still shows up as a pending future of the loop's tasks
             others = [t for t in asyncio.all_tasks() if t is not asyncio.current_task() and not t.done()]
